@@ -259,7 +259,13 @@ impl<'store> ResultItem<'store, Annotation> {
     ) -> impl Iterator<Item = ResultTextSelection<'store>> {
         //first we gather all textselections for this annotation in a set, as the chosen operator may apply to them jointly
         let tset: TextSelectionSet = self.textselections().collect();
-        tset.as_resultset(self.store()).related_text(operator)
+        //an annotation without text has no related text (and its empty set is not bound to any resource)
+        let iter = if tset.len() == 0 {
+            None
+        } else {
+            Some(tset.as_resultset(self.store()).related_text(operator))
+        };
+        iter.into_iter().flatten()
     }
 
     /// Returns the text this resources references as a single text selection set.
